@@ -38,7 +38,7 @@ def insert_zero(ast, rng):
         return "%s%d" % (base, k)
     inserted = []
     place = rng.choice(["item-first", "item-last", "item-middle", "starred", "quoted", "zero-super", "only-member", "in-domains-target", "last-definition",
-                        "beside-wildcard", "beside-wildcard"])
+                        "beside-wildcard", "beside-wildcard", "in-port", "in-port"])
     z = fresh("zz")
     zdef = {"k": "seq", "name": z, "items": [{"t": "nuc", "text": rng.choice(["0N", "0N 0S", "?N"])}], "len": None}
     if "?" in zdef["items"][0]["text"]:
@@ -83,6 +83,14 @@ def insert_zero(ast, rng):
             return None
         pick = rng.choice(doms)
         t = next(s for s in targets if s["k"] == "seq" and s["name"] == pick)
+    elif place == "in-port":
+        # a member of a super-sequence the component declares as a port (a system lists the members of such a port again in the
+        # connector structures of the .des back-end)
+        pnames = {p["seq"] for p in a.get("inputs", []) + a.get("outputs", [])}
+        cands = [s for s in targets if s["k"] == "seq" and s["name"] in pnames]
+        if not cands:
+            return None
+        t = rng.choice(cands)
     else:
         t = rng.choice(targets)
     item = {"t": "ref", "name": z, "star": place == "starred" or rng.random() < 0.2}
@@ -152,7 +160,7 @@ def wildcard_zero_pair(rng):
 def run(st, tier, seed):
     res = Result("C14")
     res.rule = ("every generated program (components; systems with one transformed template) x 1 insertion drawn from "
-                "{first, last, middle, starred, quoted region, zero-length super-sequence, only-member, inside a super-sequence read "
+                "{first, last, middle, starred, quoted region, zero-length super-sequence, only-member, member of a port super-sequence, inside a super-sequence read "
                 "through domains(), last definition of the component}; non-trivial = the insertion touches a super-sequence or strand; "
                 "distinct by (source, placement)")
     rng = core.rng_for(seed, "c14")
